@@ -188,7 +188,9 @@ inline std::string dump(const gr_face *face, const gr_font *font, gr_segment *se
         if (i) s += ",";
         s += "{\"g\":" + std::to_string(gr_slot_gid(p)) + ",\"i\":" + std::to_string(gr_slot_index(p)) + ",\"o\":[";
         fl(s, gr_slot_origin_X(p)); s += ","; fl(s, gr_slot_origin_Y(p)); s += "],\"a\":[";
-        fl(s, gr_slot_advance_X(p, face, font)); s += ","; fl(s, gr_slot_advance_Y(p, face, font)); s += "]";
+        fl(s, gr_slot_advance_X(p, face, font)); s += ","; fl(s, gr_slot_advance_Y(p, face, font)); s += "],\"a0\":[";
+        // the face argument "may be NULL if unhinted advances [are] used" (Segment.h): same scaling expected
+        fl(s, gr_slot_advance_X(p, nullptr, font)); s += ","; fl(s, gr_slot_advance_Y(p, nullptr, font)); s += "]";
         s += ",\"b\":" + std::to_string(gr_slot_before(p)) + ",\"f\":" + std::to_string(gr_slot_after(p)) + ",\"r\":" + std::to_string(gr_slot_original(p));
         s += ",\"p\":" + std::to_string(P(gr_slot_attached_to(p))) + ",\"c\":" + std::to_string(P(gr_slot_first_attachment(p))) + ",\"s\":" + std::to_string(P(gr_slot_next_sibling_attachment(p)));
         s += ",\"ins\":" + std::to_string(gr_slot_can_insert_before(p));
